@@ -148,20 +148,37 @@ Proof. intros H n y HR. rewrite resolve_push in HR. apply (H n y HR). Qed.
 Lemma emit_breaks o ops st st' : emit true o ops st = COk st' -> cbreaks st' = cbreaks st.
 Proof. intro H. apply emit_ok in H. destruct H as (? & _ & ->). reflexivity. Qed.
 
-Lemma efrag_breaks : forall e, efrag e = true -> forall st st', compile_expr true e st = COk st' -> cbreaks st' = cbreaks st.
+Lemma efrag_breaks_all :
+  (forall e, efrag e = true -> forall st st', compile_expr true e st = COk st' -> cbreaks st' = cbreaks st) /\
+  (forall l, efrag_list l = true -> forall st st', compile_elist true l st = COk st' -> cbreaks st' = cbreaks st) /\
+  (forall p : eplist, True) /\ (forall o : oexpr, True).
 Proof.
-  induction e; intro HF; try discriminate HF; intros st st' HC; simpl in HC.
-  - unfold emit_const in HC. apply emit_breaks in HC. exact HC.
-  - apply emit_breaks in HC. exact HC.
-  - unfold emit_const in HC. apply emit_breaks in HC. exact HC.
-  - unfold compile_var in HC. destruct (st_resolve n (csym st)); [|discriminate]. destruct (sscp s); apply emit_breaks in HC; exact HC.
-  - assert (HF1 : efrag e = true) by (destruct op; simpl in HF; congruence).
+  apply expr_mutind; try (intros; exact I).
+  - intros f HF st st' HC; simpl in HC. unfold emit_const in HC. apply emit_breaks in HC. exact HC.
+  - intros b HF st st' HC; simpl in HC. apply emit_breaks in HC. exact HC.
+  - intros s HF st st' HC; simpl in HC. unfold emit_const in HC. apply emit_breaks in HC. exact HC.
+  - intros n HF st st' HC; simpl in HC. unfold compile_var in HC. destruct (st_resolve n (csym st)); [|discriminate]. destruct (sscp s); apply emit_breaks in HC; exact HC.
+  - intros l IHl HF st st' HC; simpl in HC. cbn [efrag] in HF. bind_inv HC. rewrite <- (IHl HF _ _ H). apply emit_breaks in HC. exact HC.
+  - intros kvs _ np HF. discriminate HF.
+  - intros op e IHe HF st st' HC; simpl in HC. assert (HF1 : efrag e = true) by (destruct op; simpl in HF; congruence).
     bind_inv HC. rewrite <- (IHe HF1 _ _ H). destruct op; try discriminate HC; apply emit_breaks in HC; exact HC.
-  - simpl in HF. apply andb_true_iff in HF. destruct HF as [HF1 HF2]. bind_inv HC. bind_inv H.
+  - intros op lt rt e1 IHe1 e2 IHe2 HF st st' HC; simpl in HC.
+    simpl in HF. apply andb_true_iff in HF. destruct HF as [HF1 HF2]. bind_inv HC. bind_inv H.
     rewrite <- (IHe1 HF1 _ _ H0), <- (IHe2 HF2 _ _ H).
     destruct (binop_opc _ _ _ _ _ HC) as (o & HE & _). apply emit_breaks in HE. exact HE.
-  - apply (IHe HF _ _ HC).
+  - intros e1 IHe1 e2 IHe2 HF st st' HC; simpl in HC.
+    simpl in HF. apply andb_true_iff in HF. destruct HF as [HF1 HF2]. bind_inv HC. bind_inv H.
+    rewrite <- (IHe1 HF1 _ _ H0), <- (IHe2 HF2 _ _ H). apply emit_breaks in HC. exact HC.
+  - intros l _ a _ b _ HF. discriminate HF.
+  - intros e IHe HF st st' HC; simpl in HC. apply (IHe HF _ _ HC).
+  - intros w HF. discriminate HF.
+  - intros _ st st' HC. simpl in HC. inversion HC; reflexivity.
+  - intros e IHe t IHt HF st st' HC. cbn [efrag_list] in HF. apply andb_true_iff in HF. destruct HF as [HF1 HF2].
+    simpl in HC. bind_inv HC. rewrite <- (IHe HF1 _ _ H). apply (IHt HF2 _ _ HC).
 Qed.
+
+Lemma efrag_breaks : forall e, efrag e = true -> forall st st', compile_expr true e st = COk st' -> cbreaks st' = cbreaks st.
+Proof. exact (proj1 efrag_breaks_all). Qed.
 
 (* ---------- operands that fit, unconditionally ---------- *)
 Definition AOK (ops : list hop) : Prop := Forall (fun hx => snd (snd hx) < 65536) ops.
